@@ -377,11 +377,9 @@ func evalC19Str(c C19StrCase) *h.Finding {
 	if o.ParseErr != nil {
 		return h.F("c19-bad-wire", "%s: %v", desc, o.ParseErr)
 	}
-	// number of lines the server sees: LF-terminated ones plus a trailing fragment
+	// number of lines the server sees: the LF-terminated ones. A trailing fragment that the peer never completed before
+	// it hung up is not a line (until fix D34 it was executed like one, and this oracle had taken that for granted).
 	n := bytes.Count(c.S, []byte("\n"))
-	if len(c.S) > 0 && c.S[len(c.S)-1] != '\n' {
-		n++
-	}
 	want := n
 	if n >= 4 {
 		want = 5 // four error replies and the closing notice
@@ -701,15 +699,23 @@ func C19(tier string) int {
 		if run.Expired() {
 			return
 		}
+		// every string as it is (a trailing fragment is then cut off by the end of the connection) and, unless it ends
+		// in LF anyway, completed by CRLF (every string is a line at least once)
+		variants := [][]byte{strs[i]}
+		if n := len(strs[i]); n == 0 || strs[i][n-1] != '\n' {
+			variants = append(variants, append(append([]byte(nil), strs[i]...), '\r', '\n'))
+		}
 		for _, st := range []string{"fresh", "greeted", "tx"} {
 			for _, oct := range []bool{false, true} {
-				c := C19StrCase{State: st, S: strs[i], Octet: oct}
-				f := evalC19Str(c)
-				run.Eval(bytes.ContainsAny(strs[i], "\x00\r\n\xff"))
-				if f != nil {
-					c.Show = fmt.Sprintf("%q", strs[i])
-					run.Violate("c19-str", c, f, func() *h.Finding { return evalC19Str(c) })
-					run.Outcome("violation:" + f.Sig)
+				for _, v := range variants {
+					c := C19StrCase{State: st, S: v, Octet: oct}
+					f := evalC19Str(c)
+					run.Eval(bytes.ContainsAny(v, "\x00\r\n\xff"))
+					if f != nil {
+						c.Show = fmt.Sprintf("%q", v)
+						run.Violate("c19-str", c, f, func() *h.Finding { return evalC19Str(c) })
+						run.Outcome("violation:" + f.Sig)
+					}
 				}
 			}
 		}
